@@ -1839,6 +1839,28 @@ def _current_task(it, lv, ca, node):
     raise Unsupported("current_task() outside a contract that defines it")
 
 
+@spec("sys.exception")
+def _sys_exception(it, lv, ca, node):
+    """sys.exception() (3.11+): the exception instance being handled by the innermost active handler of the calling thread -
+    the function's own handler if it is inside one, otherwise whatever its callers are handling: nothing, a cancellation
+    (a caller's `except CancelledError:` around an awaited child), or any other exception (T-EXCINFO)."""
+    used("T-EXCINFO")
+    st = it.st
+    cur = st.ghost.get("$handling")
+    if cur is not None:
+        return cur
+    j = st.fork("sys.exception", [("caller-handles-nothing", True), ("caller-handles-a-CancelledError", True),
+                                  ("caller-handles-another-exception", True)])
+    if j == 0:
+        return V.VNone
+    return it.new_exc("CancelledError" if j == 1 else "Exception")
+
+
+@spec("sys.exc_info")
+def _sys_exc_info(it, lv, ca, node):
+    raise Unsupported("sys.exc_info")
+
+
 @spec("Task.cancelling")
 def _task_cancelling(it, lv, ca, node):
     """Number of pending cancellation requests of the task (T-FUT)."""
